@@ -9,7 +9,9 @@ package c14
 import (
 	"fmt"
 	"os"
+	"regexp"
 	"runtime/debug"
+	"sort"
 	"strings"
 
 	"verif/harness/vf"
@@ -17,7 +19,7 @@ import (
 
 func init() {
 	vf.Register(&vf.CheckDef{ID: "C14", Level: "model_checking", Run: run,
-		Workers: map[string]vf.WorkerFunc{"stack": stackWorker, "prog": progWorker}})
+		Workers: map[string]vf.WorkerFunc{"stack": stackWorker, "prog": progWorker, "prec": precWorker, "law": lawWorker}})
 }
 
 type progArgs struct {
@@ -74,6 +76,14 @@ func progWorker(w *vf.Worker) {
 		genRecurFamily(a, emit)
 	case "hof":
 		genHofFamily(a, emit)
+	case "blocks":
+		genBlocksFamily(a, emit)
+	case "filter":
+		genFilterFamily(a, emit)
+	case "chain":
+		genChainFamily(a, emit)
+	case "emit":
+		genEmitFamily(a, emit)
 	}
 	w.Count("family:"+a.Family+":enumerated", int64(n)/int64(1)) // every shard enumerates everything; divided by shards in run()
 }
@@ -91,35 +101,223 @@ func genScopeFamily(a progArgs, emit func(func() *progCase)) {
 	}
 }
 
-func run(c *vf.Ctx) {
-	c.Rule = "TODO"
-	type sa struct{ Level, Depth int }
-	if os.Getenv("VERIF_C14_SKIP_STACK") == "" {
-		if c.Quick() {
-			c.RunPool(vf.PoolSpec{Worker: "stack", Shards: 64, Args: sa{0, 7}})
-			c.RunPool(vf.PoolSpec{Worker: "stack", Shards: 64, Args: sa{1, 6}})
-		} else {
-			c.RunPool(vf.PoolSpec{Worker: "stack", Shards: 64, Args: sa{0, 9}})
-			c.RunPool(vf.PoolSpec{Worker: "stack", Shards: 64, Args: sa{2, 7}})
+type famSpec struct {
+	args   progArgs
+	worker string
+	shards int
+}
+
+func familySpecs(quick bool) []famSpec {
+	if e := os.Getenv("VERIF_C14_EXPERIMENT"); e != "" { // "family,level,size,depth": sizing experiments
+		var f progArgs
+		fmt.Sscanf(strings.ReplaceAll(e, ",", " "), "%s %d %d %d", &f.Family, &f.Level, &f.Size, &f.Depth)
+		return []famSpec{{f, "prog", 64}}
+	}
+	if quick {
+		return []famSpec{
+			{progArgs{Family: "scope", Level: 2, Size: 3, Depth: 3}, "prog", 64},
+			{progArgs{Family: "coll", Level: 1, Size: 1}, "prog", 64},
+			{progArgs{Family: "coll-risky", Level: 0, Size: 1, Risky: true}, "prog", 64},
+			{progArgs{Family: "fields", Level: 0, Size: 3}, "prog", 64},
+			{progArgs{Family: "copy", Level: 1}, "prog", 32},
+			{progArgs{Family: "func", Level: 1, Size: 2}, "prog", 64},
+			{progArgs{Family: "recur", Level: 1}, "prog", 32},
+			{progArgs{Family: "hof", Level: 1}, "prog", 32},
+			{progArgs{Family: "blocks", Level: 0, Size: 3}, "prog", 64},
+			{progArgs{Family: "filter", Level: 0, Size: 3}, "prog", 32},
+			{progArgs{Family: "chain", Level: 0}, "prog", 32},
+			{progArgs{Family: "emit", Level: 1}, "prog", 32},
+			{progArgs{Family: "law", Size: 2}, "law", 32},
+			{progArgs{Family: "prec", Size: 2}, "prec", 64},
 		}
 	}
-	fams := []progArgs{{"scope", 0, 3, 2, false}, {"coll", 0, 1, 0, false}, {"coll-risky", 0, 1, 0, true}, {"fields", 0, 2, 0, false}, {"copy", 0, 1, 0, false},
-		{"func", 0, 2, 0, false}, {"recur", 0, 0, 0, false}, {"hof", 0, 0, 0, false}}
-	if !c.Quick() {
-		fams = []progArgs{{"scope", 1, 4, 3, false}, {"coll", 1, 2, 0, false}, {"coll-risky", 1, 1, 0, true}, {"fields", 1, 3, 0, false}, {"copy", 1, 1, 0, false},
-			{"func", 1, 3, 0, false}, {"recur", 1, 0, 0, false}, {"hof", 1, 0, 0, false}}
+	return []famSpec{
+		{progArgs{Family: "scope", Level: 1, Size: 4, Depth: 3}, "prog", 128},
+		{progArgs{Family: "scope", Level: 2, Size: 3, Depth: 3}, "prog", 64},
+		{progArgs{Family: "coll", Level: 1, Size: 2}, "prog", 128},
+		{progArgs{Family: "coll-risky", Level: 1, Size: 1, Risky: true}, "prog", 512},
+		{progArgs{Family: "fields", Level: 1, Size: 3}, "prog", 64},
+		{progArgs{Family: "copy", Level: 1}, "prog", 32},
+		{progArgs{Family: "func", Level: 1, Size: 3}, "prog", 128},
+		{progArgs{Family: "recur", Level: 1}, "prog", 32},
+		{progArgs{Family: "hof", Level: 1}, "prog", 32},
+		{progArgs{Family: "blocks", Level: 1, Size: 3}, "prog", 64},
+		{progArgs{Family: "filter", Level: 1, Size: 3}, "prog", 64},
+		{progArgs{Family: "chain", Level: 1}, "prog", 32},
+		{progArgs{Family: "emit", Level: 1}, "prog", 32},
+		{progArgs{Family: "law", Size: 3}, "law", 64},
+		{progArgs{Family: "prec", Size: 3, Level: 1}, "prec", 128},
 	}
-	for _, f := range fams {
-		if o := os.Getenv("VERIF_C14_FAMILY"); o != "" && o != f.Family {
+}
+
+func run(c *vf.Ctx) {
+	c.Rule = "three layers. (1) runtime.Stack: every well-nested sequence of stack operations up to the depth bound over a fixed menu, replayed (by deep clone) on the real pooled Stack and on a naive unpooled stack; every sequence is one case, non-trivial when its last operation was executed and observed. (2) programs: per family every program of the family's grammar up to its size bound (statement count / nesting depth / index alphabet), canonical order smallest first; a program counts as non-trivial when the reference interpreter determines its outcome (output items or a documented fatal error) and it was run on the real parser+CST and compared. (3) laws on the real code: emit-by-names vs stats1 for every record stream up to the length bound, precedence: every operator tree up to the operator-count bound printed with minimal and with full parentheses"
+	c.Assume("covered sub-language only: ints, strings, booleans, maps, arrays, absent; operators + - * . < <= > >= == != <=> && || ! ?: ?? min (arithmetic is C07/C08); no floats, regex captures, string/time functions, ENV, M_PI, system/exec, case statements, tee/redirected output (C20), eprint/edump, printn, positional-name unset, emit to redirects")
+	c.Assume("unset of a local clears its value to absent and keeps the binding (scope and declared type); whether an outer same-named local shows through afterwards is not asserted")
+	c.Assume("not asserted because the reference text does not determine them (counted per reason under counters 'unconstrained:*'): array index 0 and negative indices beyond the length, indexing or slicing scalars, string indices on arrays, auto-create of an array element through an integer index, negative positional field indices, declarations of a loop-bound name at the top of that loop's body, comparisons/arithmetic on mixed or absent operands, emit of a map literal or $*, emit by >= 2 names that stop short of the leaves, lashed emits of unequal shapes, emit @* of unequal depths, bare return in a function, NR in begin blocks")
+	c.Assume("precedence family: the dot operators .+ .- .* ./ are not in the documented precedence table and are not generated; a unary operator as the right operand of ** is always parenthesised")
+	c.Assume("programs the reference interpreter finds non-terminating within 4000 steps are not run; if the real interpreter failed to terminate on a program the reference terminates on, the pool would report a hang")
+	c.Assume("array growth through a non-final index (x[n+1][j] = v) is enumerated in a separate one-program-per-shard family with a reduced alphabet, because each such program currently kills the worker process")
+	only := os.Getenv("VERIF_C14_FAMILY")
+	hf := fmt.Sprintf("/dev/shm/verif-c14-hangs-%d", os.Getpid())
+	os.Remove(hf)
+	defer os.Remove(hf)
+	type sa struct{ Level, Depth int }
+	if os.Getenv("VERIF_C14_SKIP_STACK") == "" && (only == "" || only == "stack") {
+		if c.Quick() {
+			c.RunPool(vf.PoolSpec{Worker: "stack", Shards: 64, Args: sa{0, 7}, CrashKey: stackCrashKey})
+			c.RunPool(vf.PoolSpec{Worker: "stack", Shards: 64, Args: sa{1, 7}, CrashKey: stackCrashKey})
+			c.Extra["stack_search"] = "menu of 10 operations to depth 7, menu of 14 operations to depth 7"
+		} else {
+			c.RunPool(vf.PoolSpec{Worker: "stack", Shards: 128, Args: sa{0, 9}, CrashKey: stackCrashKey})
+			c.RunPool(vf.PoolSpec{Worker: "stack", Shards: 128, Args: sa{2, 7}, CrashKey: stackCrashKey})
+			c.Extra["stack_search"] = "menu of 10 operations to depth 9, menu of 18 operations to depth 7"
+		}
+	}
+	outcomes := map[string]int{}
+	shardsOf := map[string]int{}
+	for _, f := range familySpecs(c.Quick()) {
+		if only != "" && only != f.args.Family {
 			continue
 		}
-		shards := 64
-		if f.Risky {
-			shards = 512 // one program per shard: a crash must not take other cases' results with it
+		spec := vf.PoolSpec{Worker: f.worker, Shards: f.shards, Args: f.args}
+		if f.worker == "prog" {
+			spec.CrashKey = crashKey
 		}
-		c.RunPool(vf.PoolSpec{Worker: "prog", Shards: shards, Args: f, CrashKey: crashKey})
+		res := c.RunPool(spec)
+		for name, set := range res.Sets {
+			if name == "prec-operator-pairs-whose-association-is-observable" {
+				c.Extra["prec_operator_pairs_whose_association_is_observable"] = fmt.Sprintf("%d of %d ordered pairs of binary operators", len(set), len(precBinOps)*len(precBinOps))
+				continue
+			}
+			outcomes[name] += len(set)
+		}
+		shardsOf[f.args.Family] += f.shards
 	}
-	c.DistinctNontrivial = c.Evaluations
+	c.Extra["distinct_outputs_per_family"] = outcomes
+	summarise(c, shardsOf)
+}
+
+var bnfTypeRe = regexp.MustCompile(`"type":\s*"([A-Za-z_]+)"`)
+
+// summarise turns the merged counters into the evidence tables: grammar productions exercised and
+// never generated, operator tokens, per-family statistics, unconstrained reasons.
+func summarise(c *vf.Ctx, shardsOf map[string]int) {
+	prod := map[string]int64{}
+	ops := map[string]int64{}
+	sem := map[string]int64{}
+	fam := map[string]map[string]int64{}
+	uncon := map[string]int64{}
+	stack := map[string]int64{}
+	for k, v := range c.Counters {
+		switch {
+		case strings.HasPrefix(k, "prod:"):
+			name := k[5:]
+			if strings.HasPrefix(name, "Operator:") {
+				ops[name[9:]] += v
+			}
+			prod[name] += v
+			delete(c.Counters, k)
+		case strings.HasPrefix(k, "sem:"), strings.HasPrefix(k, "builtin:"):
+			sem[k] += v
+			delete(c.Counters, k)
+		case strings.HasPrefix(k, "family:"):
+			parts := strings.SplitN(k[7:], ":", 2)
+			if len(parts) == 2 {
+				if fam[parts[0]] == nil {
+					fam[parts[0]] = map[string]int64{}
+				}
+				fam[parts[0]][parts[1]] += v
+			}
+			delete(c.Counters, k)
+		case strings.HasPrefix(k, "unconstrained:"):
+			uncon[k[14:]] += v
+			delete(c.Counters, k)
+		case strings.HasPrefix(k, "stack_"):
+			stack[k] += v
+			delete(c.Counters, k)
+		}
+	}
+	// every shard enumerates the whole family: normalise, and account for cases lost to worker crashes
+	var lost int64
+	for f, m := range fam {
+		if n, ok := m["enumerated"]; ok && shardsOf[f] > 0 {
+			m["enumerated"] = n / int64(shardsOf[f])
+			if g := m["generated"]; g < m["enumerated"] && n%int64(shardsOf[f]) == 0 {
+				m["lost-to-worker-crashes"] = m["enumerated"] - g
+				if f != "coll-risky" {
+					lost += m["enumerated"] - g
+				}
+			}
+		}
+	}
+	if lost > 0 {
+		c.Exhaustive = false
+		c.Extra["inexhaustive_note"] = fmt.Sprintf("%d generated programs were not evaluated because a worker process died (see the crash violations)", lost)
+	}
+	c.Extra["families"] = fam
+	c.Extra["semantic_rules_exercised"] = sem
+	c.Extra["unconstrained_not_asserted_by_reason"] = uncon
+	if len(stack) > 0 {
+		c.Extra["stack_search_counts"] = stack
+	}
+	// grammar productions
+	bnfTypes := map[string]bool{}
+	if b, err := os.ReadFile(vf.RepoRoot() + "/pkg/parsing/mlr.bnf"); err == nil {
+		for _, m := range bnfTypeRe.FindAllStringSubmatch(string(b), -1) {
+			bnfTypes[m[1]] = true
+		}
+	}
+	alias := map[string][]string{
+		"IntLiteral": {"int_literal"}, "StringLiteral": {"string_literal"}, "BoolLiteral": {"bool_literal"},
+		"Operator": {"Operator"}, "Parameter": {"Parameter", "ParameterList"}, "ElifBlock": {"IfItem"}, "ElseBlock": {"IfItem"},
+		"IfChain": {"IfChain", "IfItem"}, "ForLoopMultivariable": {"ForLoopMultivariable", "MultiIndex"},
+		"PositionalFieldName": {"IndirectFieldValue", "ArrayLiteral"}, "PositionalFieldValue": {"IndirectFieldValue", "ArrayLiteral"},
+		"FunctionCallsite": {"FunctionCallsite", "FcnArgs"}, "TripleForLoop": {"TripleForLoop", "StatementBlock"},
+		"NamedFunctionDefinition": {"NamedFunctionDefinition", "StatementBlockInBraces"},
+	}
+	exercised := map[string]int64{}
+	for name, v := range prod {
+		base := name
+		if i := strings.Index(base, ":"); i > 0 {
+			base = base[:i]
+		}
+		if name == "Operator:." {
+			exercised["DotOperator"] += v
+			continue
+		}
+		targets := alias[base]
+		if targets == nil {
+			targets = []string{base}
+		}
+		for _, t := range targets {
+			if bnfTypes[t] || len(bnfTypes) == 0 {
+				exercised[t] += v
+			}
+		}
+	}
+	if len(prod) > 0 {
+		exercised["StatementBlock"] += prod["PrintStatement"] + 1
+	}
+	var never []string
+	for t := range bnfTypes {
+		if exercised[t] == 0 {
+			never = append(never, t)
+		}
+	}
+	sort.Strings(never)
+	c.Extra["grammar_productions_exercised"] = exercised
+	c.Extra["grammar_productions_never_generated"] = never
+	c.Extra["generator_symbol_hits"] = prod
+	// operator tokens of the documented table
+	var opNever []string
+	for _, o := range append(append([]string{}, precBinOps...), "unary!", "unary~", "unary+", "unary-", "?:") {
+		if ops[o] == 0 {
+			opNever = append(opNever, o)
+		}
+	}
+	c.Extra["operator_token_hits"] = ops
+	c.Extra["operator_tokens_never_generated"] = append(opNever, ".+", ".-", ".*", "./ (not in the documented table)")
 }
 
 func crashKey(idx uint64, label, kind, tail string) (string, string) {
@@ -139,4 +337,12 @@ func crashKey(idx uint64, label, kind, tail string) (string, string) {
 		first = first[:300]
 	}
 	return fmt.Sprintf("%s[crash;%s]:%s", fam, cause, text), fmt.Sprintf("`mlr -n put '%s'` (or with the fixed input) kills the process (%s): %s", text, kind, first)
+}
+
+func stackCrashKey(idx uint64, label, kind, tail string) (string, string) {
+	first := tail
+	if len(first) > 400 {
+		first = first[:400]
+	}
+	return "stack[crash]:" + label, fmt.Sprintf("the runtime.Stack search dies (%s) in the %s: %s", kind, label, first)
 }
